@@ -271,9 +271,22 @@ impl<'p, W, R, T> CompilationScope<'p, W, R, T> {
             .iter_mut()
             .find(|f| !f.fulfilled && f.name == name && f.spec == spec)
         {
-            // todo check what happens if the fulfillment has a reference as well
+            // the fulfilment may itself depend on other forward functions: the name stays gated by
+            // those (the cell so far only required its own forward declaration)
             fref.fulfilled = true;
-            fref.cell_idx
+            let cell_idx = fref.cell_idx;
+            if let Some(Cell::Variable {
+                forward_requirements: cell_requirements,
+                ..
+            }) = self.cells.iter_mut().nth(cell_idx)
+            {
+                for freq in forward_requirements {
+                    if !cell_requirements.contains(&freq) {
+                        cell_requirements.push(freq);
+                    }
+                }
+            }
+            cell_idx
         } else {
             let cell_idx = self.cells.ipush(Cell::Variable {
                 t: spec.xtype(),
@@ -736,7 +749,16 @@ impl<'p, W, R, T> CompilationScope<'p, W, R, T> {
                     .map(|i| self.compile(i))
                     .collect::<Result<_, _>>()?,
             )),
-            XStaticExpr::Lambda(spec, func) => self.add_anonymous_func(spec, *func),
+            XStaticExpr::Lambda(spec, func) => {
+                // a lambda is a value from the moment it is written: like a named function that is
+                // used, it is gated by the forward functions its body depends on
+                if let XStaticFunction::UserFunction(uf) = func.as_ref() {
+                    let forward_requirements: Vec<_> =
+                        uf.forward_requirements.iter().cloned().collect();
+                    self.require_forwards(forward_requirements)?;
+                }
+                self.add_anonymous_func(spec, *func)
+            }
             XStaticExpr::SpecializedIdent(name, specialization) => match self.get_item(&name) {
                 Some(CompilationItem::Overload(overloads)) => {
                     self.resolve_overload(overloads, None, specialization.borrow(), name)
